@@ -54,8 +54,9 @@ class Interpreter:
         :param code: Michelson code
         """
         result = InterpreterResult(stdout=[])
-        stack_backup = deepcopy(self.stack)
-        context_backup = deepcopy(self.context)
+        memo: dict = {}
+        context_backup = deepcopy(self.context, memo)
+        stack_backup = deepcopy(self.stack, memo)  # big_maps on the stack follow the context copy
 
         try:
             code_section = CodeSection.match(michelson_to_micheline(code))
